@@ -572,6 +572,16 @@ class Interp:
             if pr["name"] in self.procs or pr["name"] in seen:
                 raise IllDefined("redeclared-proc")
             self.procs[pr["name"]] = pr
+        # static rule (the compiler applies it whether or not the procedure is ever called): a local val must be a
+        # constant expression over literals, global vals and earlier local vals; every formal and local var of the
+        # procedure hides a global of the same name for the whole body
+        for pr in self.p["procs"]:
+            hidden = {fn for _, fn in pr["formals"]} | {d[1] for d in pr["locals"]}   # a later local val hides the global too
+            consts = {k: v for k, v in self.gvals.items() if k not in hidden}
+            for d in pr["locals"]:
+                if d[0] == "val":
+                    consts.pop(d[1], None)
+                    consts[d[1]] = self.const_eval(d[2], consts)
         if "main" not in self.procs:
             raise IllDefined("no-main")
         m = self.procs["main"]
@@ -841,12 +851,11 @@ class Interp:
             if d[0] == "var":
                 new["vars"][d[1]] = UNSET
             elif d[0] == "val":
-                consts = dict(self.gvals)
+                hidden = new["formal_names"] | {d2[1] for d2 in pr["locals"]}
+                consts = {k2: v2 for k2, v2 in self.gvals.items() if k2 not in hidden}
                 for n2, v2 in new["vals"].items():
                     if n2 not in new["formal_names"]:
                         consts[n2] = v2
-                    else:
-                        consts.pop(n2, None)
                 new["vals"][d[1]] = self.const_eval(d[2], consts)
             else:
                 raise IllDefined("local-array")
